@@ -4,20 +4,20 @@ from ..core import parse_sx, sx
 
 class C02(Prop):
     ID = "C02"
-    THEOREMS = ["C02_accept_iff", "C02_sections_are_chunks", "C02_item_count", "C02_roundtrip", "C02_section_codec", "C02_autosql_verbatim", "C02_autosql_nul_refused", "C02_zero_zero_refuted"]
+    THEOREMS = ["C02_accept_iff", "C02_sections_are_chunks", "C02_item_count", "C02_roundtrip", "C02_section_codec", "C02_autosql_verbatim", "C02_autosql_nul_refused", "C02_zero_zero_refuted", "C02_file_roundtrip", "C02_runs_are_input", "C02_written_file_roundtrip"]
     RULE = ("bigBed cases: 1-5 chromosomes (names whose first-appearance, lexicographic and id order differ), per chromosome a "
             "start-sorted entry layout from the grammar disjoint/overlapping/nested/identical/zero-length/very-long-then-short/"
             "largest-end-not-last (block and every index level)/ends past the chromosome end/mixed, rest fields of 0..20 "
             "tab-separated printable UTF-8 columns incl. multi-byte, autoSql none/generated/arbitrary/unparsable/multi-byte/with NUL, "
             "options from compress x items_per_slot{1,2,3,7,1024} x block_size{2,3,4,5,256} x zoom modes x single/two pass; "
-            "plus a stream of refused inputs (start>end, start>=length, unsorted, unknown chromosome, chromosome order, empty); "
+            "plus a stream of refused inputs (start>end, start>=length, unsorted, unknown chromosome, chromosome order, empty, block_size<2 / items_per_slot=0, a chromosome in two runs); "
             "non-trivial = accepted input with at least 2 entries; distinct = distinct case text")
     CORRESPONDENCE = ("accept/refuse class, chromosome table, full-span entries (plain reader and caching-reader history), autosql(), "
-                      "item_count(), header field counts of BigBedWrite/BigBedRead = Model/BigBedWrite.v + Model/BBIReadBed.v; "
-                      "file bytes equal (summary slot masked) for uncompressed files written without zoom levels")
+                      "item_count(), header field counts, zoom directory of BigBedWrite/BigBedRead = Model/BigBedWrite.v + Model/BBIReadBed.v; "
+                      "every byte of the file equal for uncompressed files (summary and zoom levels from Model/BedSweep.v)")
     TRUSTED = ["verif_hooks accessors for private header fields"]
     ASSUMPTIONS = ["rest fields and autoSql are valid UTF-8 (String in the API)", "libdeflater round-trips (compressed files are compared at reader level only)",
-                   "total summary and zoom levels are outside this model (Model/BedSweep.v): summary slot masked, zoom-enabled files compared through the reader"]
+                   "total summary and zoom levels come from Model/BedSweep.v (C06/C08); depth counter below 2^24 (f32 exact)"]
     PER_CASE_TIMEOUT = 30.0
 
     def gen(self, rng, tier):
@@ -37,7 +37,7 @@ class C02(Prop):
         for i in range(n // 8):
             c, t = bedgen.bed_case(rng, tier, want="roundtrip")
             cc = parse_sx(c)
-            kind = rng.choice(["start>end", "start>=len", "unsorted", "unknown-chrom", "chrom-order", "empty"])
+            kind = rng.choice(["start>end", "start>=len", "unsorted", "unknown-chrom", "chrom-order", "empty", "options", "split-chrom"])
             inp = cc[3]
             j = rng.randrange(len(inp))
             if kind == "start>end":
@@ -56,6 +56,20 @@ class C02(Prop):
                     if it[0] not in names: names.append(it[0])
                 names.reverse()
                 cc[3] = [it for nm in names for it in inp if it[0] == nm]
+            elif kind == "options":
+                if rng.random() < 0.5: cc[1][2] = rng.choice([0, 1])
+                else: cc[1][1] = 0
+            elif kind == "split-chrom":
+                # the first chromosome comes back after the others (start-sorted within each run)
+                cc[1][6] = 0
+                first = inp[0][0]
+                cc[3] = inp + [[first, it[1], it[2], it[3]] for it in inp if it[0] == first][:2]
+                if len(set(bytes(it[0]) for it in inp)) < 2:
+                    other = [s for s in cc[2] if s[0] != first]
+                    if other:
+                        cc[3] = inp + [[other[0][0], 0, 1, []]] + [[first, inp[0][1], inp[0][2], []]]
+                    else:
+                        kind = "split-chrom-single"
             else:
                 cc[3] = []
             yield sx(cc), t + ["refuse:" + kind]
